@@ -5,7 +5,7 @@
    that script each); every statement is for all batches and all schedules. *)
 From Coq Require Import List Bool Arith.
 From Coq.Strings Require Import Byte.
-From GI Require Import Lib.Bytes Gen.TsBatchConsts TsBatch.TsBatch TsBatch.TsBatchFacts.
+From GI Require Import Lib.Bytes Gen.TsBatchConsts TsBatch.TsBatch TsBatch.TsBatchFacts TsBatch.TsCleanup TsBatch.TsCleanupFacts.
 Import ListNotations.
 
 (* The environment a script starts with is setup()'s list: the documented names (generated from
@@ -205,3 +205,65 @@ Theorem C04_narrowed_path_hides_host_programs : forall cfg cfg' s t sub prog,
   look cfg s t (VOwnPath s sub None) prog = look cfg' s t (VOwnPath s sub None) prog.
 Proof. exact narrowed_path_hides_host. Qed.
 Print Assumptions C04_narrowed_path_hides_host_programs.
+
+(* ---- the whole file system (TsCleanup.v): a table of absolute paths with permission bits and symbolic
+   links whose targets may be anywhere (a file of the host, a sibling's work directory, nowhere, a
+   loop).  [remove_all_now root mine fs dir] is removeAll(dir) as the source has it now (the generated
+   constant says whether the chmod pass is for directories only), run by root or by the owner of the
+   paths below [mine]. *)
+
+(* Cleaning up a work directory (and `rm`) changes nothing outside it: not the mode, content or
+   existence of any path that is not at or below the directory — whatever the tree holds. *)
+Theorem C04_cleanup_touches_only_workdir : forall root mine fs dir p,
+  path_prefix dir p = false -> gget (remove_all_now root mine fs dir) p = gget fs p.
+Proof. exact cleanup_touches_only_workdir. Qed.
+Print Assumptions C04_cleanup_touches_only_workdir.
+
+(* The same for the two-pass algorithm itself, whenever the mode is changed for directories only ... *)
+Theorem C04_chmod_of_directories_only_is_contained : forall root mine fs dir p,
+  path_prefix dir p = false -> gget (remove_all_at true root mine fs dir) p = gget fs p.
+Proof. exact remove_all_frame. Qed.
+Print Assumptions C04_chmod_of_directories_only_is_contained.
+
+(* ... and false when os.Chmod is applied to every entry: it follows a link out of the directory. *)
+Theorem C04_chmod_of_every_entry_refuted :
+  exists root mine fs dir p,
+    path_prefix dir p = false /\ gget (remove_all_at false root mine fs dir) p <> gget fs p.
+Proof. exact chmod_every_entry_refuted. Qed.
+Print Assumptions C04_chmod_of_every_entry_refuted.
+
+(* Everything at or below the directory is gone afterwards: for root whatever the modes, for the
+   owner provided the directory that holds it is writable (read-only directories inside are dealt
+   with by the chmod pass). *)
+Theorem C04_cleanup_removes_everything_as_root : forall dirs_only mine fs dir p,
+  path_prefix dir p = true -> gget (remove_all_at dirs_only true mine fs dir) p = None.
+Proof. exact remove_all_removes_root. Qed.
+Print Assumptions C04_cleanup_removes_everything_as_root.
+
+Theorem C04_cleanup_removes_everything_as_owner : forall mine fs dir p,
+  dir <> [] -> (forall q, path_prefix dir q = true -> can_chmod false mine q = true) ->
+  g_unremovable false fs dir = false ->
+  path_prefix dir p = true -> gget (remove_all_at true false mine fs dir) p = None.
+Proof. exact remove_all_removes_owner. Qed.
+Print Assumptions C04_cleanup_removes_everything_as_owner.
+
+(* ---- links and `rm` in the per-script tree of the batch model *)
+
+(* `rm q`, whether it succeeds or fails, changes nothing that is not at or below q ... *)
+Theorem C04_rm_touches_only_its_argument : forall root t q p,
+  path_prefix q p = false -> tree_get (rm_tree (rm_path root t q)) p = tree_get t p.
+Proof. exact rm_frame. Qed.
+Print Assumptions C04_rm_touches_only_its_argument.
+
+(* ... and when it succeeds on something that exists nothing is left at or below q. *)
+Theorem C04_rm_removes_the_subtree : forall root t q t' n p,
+  rm_path root t q = RmOk t' -> tree_get t q = Some n -> path_prefix q p = true -> tree_get t' p = None.
+Proof. exact rm_ok_removes. Qed.
+Print Assumptions C04_rm_removes_the_subtree.
+
+(* `symlink q -> target` adds the link and nothing else. *)
+Theorem C04_symlink_adds_only_the_link : forall root t q tg t',
+  symlink_at root t q tg = Some t' ->
+  tree_get t q = None /\ forall p, tree_get t' p = if path_eqb q p then Some (Link tg) else tree_get t p.
+Proof. exact symlink_exact. Qed.
+Print Assumptions C04_symlink_adds_only_the_link.
